@@ -923,6 +923,9 @@ func areaMetrics(c *Ctx) {
 		c.Stat("postdec_mutated", outClass(res))
 	}
 
+	// ---- (e) OS/2 codec, writer-side derivations (area_metrics_os2.go) ----
+	areaMetricsOs2(c)
+
 	// ---- whole fonts: derived fields inside (*sfnt.Font).Write output ----
 	for i := 0; i < n/5+4; i++ {
 		fontCase(c, i)
